@@ -33,6 +33,8 @@ var eCases = []eCase{
 	{"reentrant/script-5-params", "func f5(a, b, c, d, e) { return a + e }\nfunc r(n) { if n == 0 { return 0 }; return f5(n, 0, 0, 0, r(n - 1)) }\nr(3)", "int64(6)", "[]"},
 	{"reentrant/script-variadic", "func fv(a, b...) { return a + b[0] }\nfunc r(n) { if n == 0 { return 0 }; return fv(n, r(n - 1), 7) }\nr(3)", "int64(6)", "[]"},
 	{"same-printed-type-name/one-then-two", "[xr.Name(), yr.Name(), yr.Zed(), xr.Alpha(), yr.Name(), xr.Name()]", "[\"one-name\" \"two-name\" \"two-zed\" \"one-alpha\" \"two-name\" \"one-name\"]", "[]"},
+	{"same-printed-type-name/fields-one-then-two", "[xr.Count, yr.Count, yr.Label, xr.Label, xr.N, yr.N]", "[int64(11) int64(22) \"two\" \"one\" int64(1) int64(2)]", "[]"},
+	{"same-printed-type-name/field-writes", "xp.Count = 5\nyp.Count = 6\nyp.Label = \"w2\"\nxp.Label = \"w1\"\n[xp.Count, yp.Count, xp.Label, yp.Label]", "[int64(5) int64(6) \"w1\" \"w2\"]", "[]"},
 	{"same-printed-type-name/two-then-one", "[yr.Zed(), xr.Alpha(), yr.Name(), xr.Name()]", "[\"two-zed\" \"one-alpha\" \"two-name\" \"one-name\"]", "[]"},
 }
 
@@ -93,8 +95,10 @@ func evalE(e eSpec) verdict {
 		calls = append(calls, l+")")
 		return s
 	})
-	en.Define("xr", twin1.Rec{N: 1})
-	en.Define("yr", twin2.Rec{N: 2})
+	en.Define("xr", twin1.Rec{N: 1, Count: 11, Label: "one"})
+	en.Define("yr", twin2.Rec{N: 2, Count: 22, Label: "two"})
+	en.Define("xp", &twin1.Rec{N: 1, Count: 11, Label: "one"})
+	en.Define("yp", &twin2.Rec{N: 2, Count: 22, Label: "two"})
 	val, err, pan := execScript(en, c.src)
 	v := verdict{nontrivial: true}
 	v.outcome = fmt.Sprintf("err=%v panic=%v calls=%v val=%s", err != nil, pan != "", calls, renderE(val))
